@@ -18,8 +18,8 @@ from vmon.util import Mon
 from vmon.ref import tagparse as tp
 
 ID = 'C15'
-RULE = ('VacancyMediated: named crystals (2-D/3-D, multi-site, multi-Wyckoff, two species) with Nthermo 1 (thorough: 2 on cheap '
-        'ones, plus random crystals); Interstitial: random crystals of all lattice systems, 1-3 orbits, 1-2 species, random '
+RULE = ('VacancyMediated: named crystals (2-D/3-D, multi-site, multi-Wyckoff, two species) with Nthermo 1 (2 on four cheap ones; '
+        'thorough: 2 on all cheap ones, plus random crystals); Interstitial: random crystals of all lattice systems, 1-3 orbits, 1-2 species, random '
         'cutoff; per calculator 6 (quick) random user dictionaries: random subset of classes (probability 0..1), random '
         'member tag, 0-3 duplicated classes, 0-4 bogus tags of 8 kinds; non-trivial = calculator with >= 2 classes; '
         'distinct = (calculator, crystal, Nthermo/cutoff class counts)')
@@ -43,13 +43,15 @@ def cases(tier, seed):
     out = []
     for k, name in enumerate(gen.NAMED):
         out.append({'seed': seed, 'idx': len(out), 'hashseed': (k + seed) % 5, 'kind': 'vm', 'name': name, 'Nthermo': 1})
-    nint = 16 if tier == 'quick' else 300
+    for k, name in enumerate(('square', 'honey', 'lieb', 'dtria')):
+        out.append({'seed': seed, 'idx': len(out), 'hashseed': (k + 1 + seed) % 5, 'kind': 'vm', 'name': name, 'Nthermo': 2})
+    nint = 16 if tier == 'quick' else 400
     for i in range(nint):
         out.append({'seed': seed, 'idx': len(out), 'hashseed': i % 5, 'kind': 'int'})
     if tier != 'quick':
         for k, name in enumerate(gen.NAMED):
             out.append({'seed': seed, 'idx': len(out), 'hashseed': (k + 2) % 7, 'kind': 'vm', 'name': name, 'Nthermo': 2 if name in CHEAP else 1})
-        for i in range(40):
+        for i in range(60):
             out.append({'seed': seed, 'idx': len(out), 'hashseed': i % 7, 'kind': 'vmrand'})
     return out
 
